@@ -361,6 +361,12 @@ fn uri() -> impl Strategy<Value = String> {
 		3 => hostname().prop_map(|h| format!("http://{h}/crl")),
 		1 => hostname().prop_map(|h| format!("ldap://{h}/cn=x?certificateRevocationList")),
 		1 => text_for(StrKind::Ia5, 16),
+		// spellings a tidy-minded writer might "canonicalise": upper-case scheme / host, default port,
+		// dot segments, percent escapes, trailing dot, userinfo, an IPv6 literal, no authority at all
+		1 => select(vec![
+			"HTTP://PKI.Example.COM/CertEnroll/Root-CA.crl", "LDAP://DC01.Corp.Example/CN=Root%20CA?certificateRevocationList", "http://example.com:80/a/../b.crl",
+			"http://example.com./crl", "http://User@Example.com/crl", "http://[2001:DB8::1]/crl", "urn:X-crl:1", "http://example.com/%7Ecrl", "http://example.com/crl?", "http://example.com/crl#", "//example.com/crl",
+		]).prop_map(|s| s.to_string()),
 	]
 }
 
